@@ -20,6 +20,62 @@ theorem swapH_swapH (s : St) : swapH (swapH s) = s := by
   cases s
   simp [swapH, swap_comp_swap]
 
+/-! ### tree parents -/
+
+@[simp, grind =] theorem mkTree_basis (g : Graph) (b : Rev) (ms : List Rev) : (mkTree g b ms).basis = b := rfl
+
+/-- what `set_parent_trees` keeps is duplicate-free and disjoint from what was kept before -/
+theorem acceptParents_nodup (g : Graph) (all : List Rev) :
+    ∀ (ms acc : List Rev), (acceptParents g all acc ms).Nodup ∧ ∀ x ∈ acceptParents g all acc ms, x ∉ acc := by
+  intro ms
+  induction ms with
+  | nil => intro acc; simp [acceptParents]
+  | cons m rest ih =>
+    intro acc
+    unfold acceptParents
+    split
+    · exact ih acc
+    · rename_i hc
+      have hm : m ∉ acc := by
+        intro hin
+        apply hc
+        simp [hin]
+      obtain ⟨h1, h2⟩ := ih (m :: acc)
+      refine ⟨List.nodup_cons.mpr ⟨fun hin => (h2 m hin) (by simp), h1⟩, ?_⟩
+      intro x hx
+      rcases List.mem_cons.mp hx with hx | hx
+      · rw [hx]; exact hm
+      · exact fun hin => (h2 x hx) (by simp [hin])
+
+/-- the pending merges of a tree are duplicate-free and do not repeat the basis -/
+def TreeOK (t : Tree) : Prop := t.basis ∉ t.merges ∧ t.merges.Nodup
+
+theorem treeOK_mkTree (g : Graph) (b : Rev) (ms : List Rev) : TreeOK (mkTree g b ms) := by
+  obtain ⟨h1, h2⟩ := acceptParents_nodup g (b :: ms) ms [b]
+  exact ⟨fun hin => (h2 b hin) (by simp), h1⟩
+
+theorem treeOK_single (r : Rev) : TreeOK ⟨r, []⟩ := ⟨by simp, by simp⟩
+
+theorem treeOK_parents (t : Tree) (h : TreeOK t) : t.parents.Nodup := by
+  unfold Tree.parents
+  split
+  · simp
+  · exact List.nodup_cons.mpr ⟨h.1, h.2⟩
+
+theorem treeOK_updateTree (g : Graph) (t : Tree) (target : Rev) (o : Option Rev) (h : TreeOK t) :
+    TreeOK (updateTree g t target o) := by
+  unfold updateTree
+  split
+  · exact treeOK_mkTree _ _ _
+  · exact h
+
+theorem treeOK_pulledTree (g : Graph) (t : Tree) (old new : Rev) (h : TreeOK t) :
+    TreeOK (pulledTree g t old new) := by
+  unfold pulledTree
+  split
+  · exact treeOK_mkTree _ _ _
+  · exact h
+
 /-! ### the log -/
 
 /-- not the write of a checkout's own branch by a bound commit -/
